@@ -48,9 +48,10 @@ func (v *Vue) evaluate(ctx VueContext, nodes []*html.Node, depth int) ([]*html.N
 
 			// Check for v-once early - skip if already rendered. An element that still carries v-for is the
 			// loop template, not an instance: the check applies to each per-item clone instead.
-			// The head of a v-if chain is only reached when its condition holds: it is checked with the
-			// other chain members, where the chain is decided.
-			if helpers.HasAttr(node, "v-once") && !helpers.HasAttr(node, "v-for") && !helpers.HasAttr(node, "v-if") {
+			// The members of a v-if chain (and the v-else of a loop) are only reached when the chain
+			// selects them: they are checked where the chain is decided.
+			if helpers.HasAttr(node, "v-once") && !helpers.HasAttr(node, "v-for") && !helpers.HasAttr(node, "v-if") &&
+				!helpers.HasAttr(node, "v-else") && !helpers.HasAttr(node, "v-else-if") {
 				vSeenID := helpers.GetAttr(node, "v-once-id")
 				if ctx.seen[vSeenID] {
 					// This v-once element has already been rendered, skip it
